@@ -96,6 +96,9 @@ static void try_image_inner(const uint8_t* img, size_t n, const char* what) {
         static const char* MN[] = { "buffer", "fread", "mmap" };
         if (!rd) { if (err.code == CARQUET_OK) mc_fail("error-contract.open-null-with-ok-code", "%s %s", what, MN[mode]); if (!memchr(err.message, 0, sizeof err.message)) mc_fail("error-contract.message-not-terminated", "%s", what); mc_outcome("rejected-at-open"); }
         else { mc_outcome("opened"); drive(rd, MN[mode]); carquet_reader_close(rd); }
+        { carquet_reader_t* rn = mode == 0 ? carquet_reader_open_buffer(x, n, &o, NULL) : carquet_reader_open(g_path, &o, NULL);      /* the optional error argument omitted: same verdict, no fault */
+          if ((rn != NULL) != (rd != NULL)) mc_fail("error-contract.verdict-depends-on-error-argument", "%s %s: open %s with an error struct and %s without", what, MN[mode], rd ? "succeeds" : "fails", rn ? "succeeds" : "fails");
+          if (rn) carquet_reader_close(rn); }
         mcf_off();
         if (mcf_live() != live0 && !g_warm) { char lk[160]; mcf_live_since(0, lk, sizeof lk); char key[96]; snprintf(key, sizeof key, "leak.%s.%s", MN[mode], rd ? "after-close" : "after-failed-open"); mc_fail(key, "%s: %ld library blocks outstanding (%ld before) [%s]", what, mcf_live(), live0, lk); mcf_reset(); }
     }
